@@ -331,6 +331,9 @@ func run(c *hc.Ctx) {
 	//     whose Bézier has its y-extremum at t = 1/2 at an exactly representable height
 	runTangent(c)
 
+	// 3c. recorded inputs of repaired curve defects (regression corpus)
+	runCorpus(c)
+
 	// 4a. Filling with an enclosing contour inside the inner contour's (loose) FastBounds box
 	runHugging(c)
 
@@ -776,4 +779,63 @@ func cubicDiscriminantSnapped(p hc.P2, segs []hc.Seg) bool {
 		}
 	}
 	return false
+}
+
+// runCorpus replays the recorded inputs of repaired defects of the curved branch against the
+// flattening oracle (every run, every tier); the kinds are the regression classes of the findings.
+func runCorpus(c *hc.Ctx) {
+	for _, tc := range []struct {
+		p    string
+		x, y float64
+	}{
+		// C06-cubic-close-roots-snapped (83d4227)
+		{"M11.634 5C-2 -15.03 -13.351 1 -6 -11.831L0.08 8.02z", -7.514589724807222, -6.1263400878906245},
+		{"M7 16.502L6.066 3L-17.536 4L-1 10.012L5.603 -9L-2 -8.952zM-7.25 -2C10 4 5.12 -16.098 8 16.162Q-9 9.75 19.659 5L-3.22 6z", 0.9887427439375109, -2.7794263373749994},
+		// C06-curved-tangent-extremum-counted (b6be64d)
+		{"M-1 1.25L-2 5Q9.491 -14.513 7.75 19.326Q-7 -19.664 -19.171 9Q-10 0 9 7z", -9.816829517709891, 3.9375},
+		{"M-2.667 2.107Q-14.083 10 0 12.865L-10 4.587L-0.226 -6L-1 -1.8zM-6 10Q-4 -7.817 -8 10Q0.25 8.5 7 3z", -10.795673112691347, 1.0915},
+	} {
+		P, err := canvas.ParseSVGPath(tc.p)
+		if err != nil {
+			c.Fail("corpus-parse", err.Error(), tc.p)
+			continue
+		}
+		segs, err := hc.Decode(P.Data())
+		if err != nil {
+			continue
+		}
+		var cs [][]hc.P2
+		for _, sp := range hc.Subpaths(segs) {
+			var ct []hc.P2
+			for _, sg := range sp {
+				if sg.Kind == 'M' || sg.Kind == 'L' || sg.Kind == 'Z' {
+					ct = append(ct, sg.End)
+				} else {
+					ct = append(ct, hc.SampleSeg(sg, 400)[1:]...)
+				}
+			}
+			if len(ct) > 1 && ct[0] == ct[len(ct)-1] {
+				ct = ct[:len(ct)-1]
+			}
+			cs = append(cs, ct)
+		}
+		pt := hc.P2{X: tc.x, Y: tc.y}
+		sfx := ""
+		if cubicDiscriminantSnapped(pt, segs) {
+			sfx = "+cubic-discriminant-snapped"
+		} else if tangentExtremum(pt, segs) {
+			sfx = "+tangent-at-extremum"
+		}
+		c.Evals++
+		var w int
+		var bd bool
+		if msg := hc.Try(func() { w, bd = P.Windings(pt.X, pt.Y) }); msg != "" {
+			c.Fail("panic:Windings-curved"+sfx, "Windings panicked: "+firstLine(msg), map[string]any{"P": tc.p, "point": []float64{tc.x, tc.y}})
+			continue
+		}
+		if wf := hc.WnFloat(pt, cs); bd || w != wf {
+			c.Fail("windings-curved"+sfx, fmt.Sprintf("Windings(%v,%v)=%d boundary=%v but the winding number of a 400-step flattening is %d (recorded input)", tc.x, tc.y, w, bd, wf), map[string]any{"P": tc.p, "point": []float64{tc.x, tc.y}})
+		}
+		c.Count("corpus curved" + sfx)
+	}
 }
